@@ -552,6 +552,8 @@ def eval_generic(F: Family, ev: Ev, unit: str):
     r.ev(f'inst_{F.name}')
     r.sig(F.name, unit, tuple(vc), length_class(len(ref)))
     what = lambda: f'{unit} hdr={hdr} values={short(values, 300)} ref={hx(ref)}'  # noqa
+    if ev.ctx is not None and len(ev.ctx.examples) < 3 and fields and len(ref) < 48:
+        ev.ctx.examples.append({'unit': f'{F.name}/{unit}', 'header': hdr, 'values': short(values, 200), 'reference_bytes': ref.hex()})
 
     def derived_check(p, where):
         if derived is None:
@@ -1868,6 +1870,7 @@ def ev_uuid(ev: Ev, unit):
 class Ctx:
     def __init__(self):
         self.recent = []
+        self.examples = []
 
 
 def pollute(ctx: Ctx, rng: random.Random, r: R):
@@ -2170,7 +2173,8 @@ def case_mix(case, r: R):
         if rng.random() < 0.6:
             pollute(ctx, rng, r)
         run_item_with_history(it, r, ctx)
-    r.sample = {'kind': 'mix', 'seed': case['seed'], 'items': len(items), 'first_items': [f'{i["fam"]}/{i["unit"]}' for i in items[:6]]}
+    r.sample = {'kind': 'mix', 'seed': case['seed'], 'items': len(items), 'instances_per_item': case['per_unit'],
+                'first_items': [f'{i["fam"]}/{i["unit"]}' for i in items[:6]], 'example_instances': ctx.examples}
 
 
 def case_ertm_all(case, r: R):
